@@ -42,6 +42,30 @@ fn main() {
         println!("obs={} conn={:?} fetches={:?}", o.obs, o.conn, o.fetches);
         return;
     }
+    if !clock_selftest() {
+        println!("CLOCK {}", json!({"ok": false}));
+    }
+    // the specification's view of what a Connection must show, per validation
+    // state and request flags (emitted by TLC: ConnView in Validator.tla)
+    let mut connview: std::collections::HashMap<String, Value> = std::collections::HashMap::new();
+    if let Some(pth) = arg_value("--connview") {
+        for l in std::fs::read_to_string(&pth).expect("connview").lines() {
+            if let Ok(v) = serde_json::from_str::<Value>(l) {
+                let i = &v["in"];
+                connview.insert(format!("{}:{}:{}:{}", i["state"].as_str().unwrap_or(""), i["cd"], i["ad"], i["do"]), v["exp"].clone());
+            }
+        }
+    }
+    let conn_ok = |state: &str, cd: bool, ad: bool, d: bool, seen: &Value| -> bool {
+        match connview.get(&format!("{}:{}:{}:{}", state, cd, ad, d)) {
+            None => true,
+            Some(e) => {
+                seen["servfail"] == e["servfail"]
+                    && seen["ad"] == e["ad"]
+                    && (e["stripped"] != json!(true) || seen["servfail"] == json!(true) || seen["dnssec"] == json!(false))
+            }
+        }
+    };
     let mut trace = arg_value("--trace").map(|p| TraceWriter::create(&p));
     let mut conn_bad: u64 = 0;
     let mut conn_n: u64 = 0;
@@ -91,12 +115,30 @@ fn main() {
             }
         }
         let mut obs = canonical(input, o.obs.clone());
-        if let Some(c) = o.conn {
+        if let (Some(c), Some(st)) = (o.conn, o.obs.get("state").and_then(|s| s.as_str())) {
             conn_n += 1;
-            let want = conn_for_state(&o.obs);
-            if c != want {
+            if !conn_ok(st, false, false, true, &c) {
                 conn_bad += 1;
-                obs = json!({"state": o.obs.get("state"), "conn": c, "conn_expected": want});
+                obs = json!({"state": st, "conn": c, "flags": "cd=0 ad=0 do=1"});
+            }
+            // all eight request flag combinations on a sub-grid
+            let small = matches!(input["shape"].as_str(), Some("secure3") | Some("insecure3"))
+                && matches!(input["denial"].as_str(), Some("nsec") | Some("nsec3"))
+                && input["adv"].as_array().map(|a| a.len() <= 1).unwrap_or(true)
+                && input["qk"] != "ds";
+            if small {
+                let shape = parse_shape(input["shape"].as_str().unwrap());
+                let denial = parse_denial(input["denial"].as_str().unwrap());
+                let pair = worlds.pair(shape, denial);
+                let plan = parse_adv(&input["adv"]);
+                let (qn, qt) = question(&pair.0, input["qk"].as_str().unwrap_or(""), &plan);
+                for (cd, ad, d, seen) in conn_matrix(&pair, &plan, &qn, qt) {
+                    conn_n += 1;
+                    if !conn_ok(st, cd, ad, d, &seen) {
+                        conn_bad += 1;
+                        obs = json!({"state": st, "conn": seen, "flags": format!("cd={} ad={} do={}", cd, ad, d)});
+                    }
+                }
             }
         }
         obs
